@@ -1,5 +1,6 @@
 import DelbDriver.Tree
 import DelbModel.Model.Edit
+import DelbModel.Model.EditApi
 open Lean Delb Delb.Edit
 
 namespace DelbDriver
@@ -94,11 +95,6 @@ def Both.run (b : Both) : List Prim → Except String Both
     | .ok b' => b'.run ps
     | .error e => .error e
 
-def nodeAtA (s : StateA) (a : Addr) : Option PTree :=
-  match s.groups[a.g]? with
-  | some (some t) => getAtP t a.path
-  | _ => none
-
 /-- an item offered to an API call -/
 inductive Item
   | str (s : Str)
@@ -160,104 +156,47 @@ def parentNs (b : Both) (a : Addr) : String :=
     | some t => nsOf t
     | none => ""
 
-/-- `add_following_siblings(*items)` starting at `a` -/
-partial def addFollowingAll (b : Both) (a : Addr) : List Item → Except String Both
-  | [] => .ok b
-  | it :: rest => do
-    if a.path.isEmpty then throw "InvalidOperation:root-sibling"
-    let (b1, src) ← materialize b (parentNs b a) it
-    let b2 ← b1.step (.addFollowing a src)
-    match splitLast a.path with
-    | some (p, i) => addFollowingAll b2 { a with path := p ++ [i + 1] } rest
-    | none => .ok b2
+/-- the lock-step pair as a machine for the composites of `DelbModel/Model/EditApi.lean`; the strings are
+    the error texts of the protocol -/
+def machBoth : Machine Both String :=
+  { step := Both.step
+    view := fun b => b.a
+    fail := fun
+      | .rootSibling => "InvalidOperation:root-sibling"
+      | .indexError => "IndexError"
+      | .unpack => "ValueError:unpack"
+      | .retainWithoutParent => "InvalidOperation:retain-without-parent"
+      | .replaceRoot => "InvalidOperation:replace-root" }
 
-partial def addPrecedingAll (b : Both) (a : Addr) : List Item → Except String Both
-  | [] => .ok b
-  | it :: rest => do
-    if a.path.isEmpty then throw "InvalidOperation:root-sibling"
-    let (b1, src) ← materialize b (parentNs b a) it
-    let b2 ← b1.step (.addPreceding a src)
-    -- `this.add_preceding_siblings(*queue)`: the added node now sits at the old index
-    addPrecedingAll b2 a rest
+/-- `_prepare_new_relative` with the namespace context of the node the method is called on -/
+def offerItem : Offer Both String Item := fun b ctx it => materialize b (parentNs b ctx) it
 
-def kidsCount (b : Both) (a : Addr) : Nat :=
-  match nodeAtA b.a a with
-  | some t => t.kids.length
-  | none => 0
-
-partial def applyOp (b : Both) (j : Json) : Except String Both := do
+def applyOp (b : Both) (j : Json) : Except String Both := do
   let op ← str j "op"
   let target ← nat j "target"
   let some a := findId b.a target | throw "unknown target id"
   let items : Except String (List Item) := do
     (← arr j "items").toList.mapM itemOfJson
-  let selfNs := match nodeAtA b.a a with | some t => nsOf t | none => ""
+  -- every composite is the total definition of `DelbModel/Model/EditApi.lean`, run on the lock-step pair
   match op with
-  | "add_following" => addFollowingAll b a (← items)
-  | "add_preceding" => addPrecedingAll b a (← items)
-  | "append" =>
-    match ← items with
-    | [] => .ok b
-    | it :: rest =>
-      let n := kidsCount b a
-      if n == 0 then do
-        let (b1, src) ← materialize b selfNs it
-        let b2 ← b1.step (.addFirst a src)
-        addFollowingAll b2 { a with path := a.path ++ [0] } rest
-      else addFollowingAll b { a with path := a.path ++ [n - 1] } (it :: rest)
+  | "add_following" => addFollowingAll machBoth offerItem (← items) b a
+  | "add_preceding" => addPrecedingAll machBoth offerItem (← items) b a
+  | "append" => appendChildren machBoth offerItem (← items) b a
   | "insert" =>
     let idx ← nat j "index"
-    let n := kidsCount b a
-    if idx > n then throw "IndexError"
-    match ← items with
-    | [] => throw "ValueError:unpack"
-    | it :: rest => do
-      let b1 ← if idx == 0 then
-          (if n > 0 then addPrecedingAll b { a with path := a.path ++ [0] } [it]
-           else do
-             let (b1, src) ← materialize b selfNs it
-             b1.step (.addFirst a src))
-        else addFollowingAll b { a with path := a.path ++ [idx - 1] } [it]
-      addFollowingAll b1 { a with path := a.path ++ [idx] } rest
+    -- the index is checked before the items are looked at
+    if idx > kidsCountA b.a a then throw "IndexError"
+    insertChildren machBoth offerItem idx (← items) b a
   | "detach" =>
     let retain := (bool j "retain").toOption.getD false
     if !retain then b.step (.detach a)
-    else do
-      if a.path.isEmpty then throw "InvalidOperation:retain-without-parent"
-      let n := kidsCount b a
-      -- child nodes are detached one by one (each becomes a group), then the node, then
-      -- `parent.insert_children(index, *child_nodes)`
-      let g0 := b.a.groups.length
-      let rec detachKids (b : Both) : Nat → Except String Both
-        | 0 => .ok b
-        | k + 1 => do
-          let b' ← b.step (.detach { a with path := a.path ++ [0] })
-          detachKids b' k
-      let b1 ← detachKids b n
-      let b2 ← b1.step (.detach a)
-      match splitLast a.path with
-      | none => .ok b2
-      | some (p, i) =>
-        let parent : Addr := { a with path := p }
-        let rec insertAll (b : Both) (k : Nat) : Nat → Except String Both
-          | 0 => .ok b
-          | m + 1 => do
-            let src := Source.group (g0 + k)
-            let cnt := kidsCount b parent
-            let b' ← if i + k == 0 then
-                (if cnt > 0 then b.step (.addPreceding { parent with path := p ++ [0] } src)
-                 else b.step (.addFirst parent src))
-              else b.step (.addFollowing { parent with path := p ++ [i + k - 1] } src)
-            insertAll b' (k + 1) m
-        insertAll b2 0 n
+    else detachRetain machBoth b a
   | "replace" => do
     if a.path.isEmpty then throw "InvalidOperation:replace-root"
-    let b1 ← addFollowingAll b a (← items)
-    b1.step (.detach a)
+    replaceWith machBoth offerItem (← items) b a
   | "delitem" => do
     let idx ← nat j "index"
-    if idx ≥ kidsCount b a then throw "IndexError"
-    b.step (.detach { a with path := a.path ++ [idx] })
+    delItem machBoth idx b a
   | "set_content" => b.step (.setContent a (← chars j "s"))
   | "merge" => b.step (.merge a)
   | "new_tag" => throw "use create"
